@@ -32,12 +32,18 @@ type Case struct {
 	Outcomes map[uint64][]string `json:"scripted_outcomes"` // per DA height, consumed before the real contents are served
 	Layout   []string            `json:"layout"`            // per DA height: what it holds
 	BigAt    uint64              `json:"many_ids_height"`
-	Seed     int64               `json:"seed"`
+	// BigN > 0: the many-ids height holds exactly BigN ids, junk first, genuine blobs (placed nowhere else) only in
+	// the last fetch chunk. BigN == 0: 230-250 ids, genuine and junk mixed.
+	BigN int `json:"many_ids_exact,omitempty"`
+	// EmptyAs: how produced heights without blobs answer a listing: "" (ErrBlobNotFound), "emptylist", "nilresult",
+	// "mixed" (per height one of the three).
+	EmptyAs string `json:"empty_height_answer,omitempty"`
+	Seed    int64  `json:"seed"`
 }
 
 func (c Case) key() string {
 	b, _ := json.Marshal(c.Outcomes)
-	return fmt.Sprintf("s%d n%d big%d %s %s", c.Start, c.Heights, c.BigAt, b, strings.Join(c.Layout, "|"))
+	return fmt.Sprintf("s%d n%d big%d/%d e%s %s %s", c.Start, c.Heights, c.BigAt, c.BigN, c.EmptyAs, b, strings.Join(c.Layout, "|"))
 }
 
 var errKinds = []string{"notfound", "future", "listerr", "chunkerr0", "chunkerr1", "chunkerr2"}
@@ -126,36 +132,81 @@ func junkCorpus(rng *rand.Rand, p *world.Produced, n int) [][]byte {
 	return out
 }
 
-type blobInfo struct {
-	genuine bool
-	isData  bool
-	height  uint64 // block height
-	hash    string // header hash / data commitment
+// genuineRef is what the producer knows about one genuine blob, by construction (no decoder involved).
+type genuineRef struct {
+	blob   []byte
+	isData bool
+	height uint64
+	hash   string   // header: header hash as computed by the producer
+	txs    [][]byte // data: the transactions of the block
 }
 
-// classify decides, with the harness's own knowledge of the proposer's chain, what a blob is.
-func classify(p *world.Produced, blob []byte) blobInfo {
-	if len(blob) == 0 {
-		return blobInfo{}
+func (g genuineRef) name() string {
+	if g.isData {
+		return fmt.Sprintf("signed data of block %d (%d bytes)", g.height, len(g.blob))
 	}
-	h := new(types.SignedHeader)
-	if err := h.UnmarshalBinary(blob); err == nil && h.Height() >= p.Spec.Initial && h.Height() <= p.Tip() {
-		i := p.Idx(h.Height())
-		if bytes.Equal(h.Hash(), p.HeaderHash[i]) && len(h.Signature) > 0 && h.Signer.PubKey != nil && h.Signer.PubKey.Equals(p.Keys.Pub) {
-			payload, _ := h.Header.MarshalBinary()
-			if ok, _ := p.Keys.Pub.Verify(payload, h.Signature); ok {
-				return blobInfo{genuine: true, height: h.Height(), hash: string(h.Hash())}
-			}
+	return fmt.Sprintf("header of block %d (%d bytes)", g.height, len(g.blob))
+}
+
+func genuineBlobs(p *world.Produced) []genuineRef {
+	var out []genuineRef
+	for i, h := range p.Heights {
+		out = append(out, genuineRef{blob: p.HeaderBlob[i], height: h, hash: string(p.HeaderHash[i])})
+		if p.DataBlob[i] != nil {
+			out = append(out, genuineRef{blob: p.DataBlob[i], isData: true, height: h, txs: p.Txs[i]})
 		}
 	}
-	var sd types.SignedData
-	if err := sd.UnmarshalBinary(blob); err == nil && sd.Metadata != nil && len(sd.Txs) > 0 && sd.Signer.PubKey != nil && sd.Signer.PubKey.Equals(p.Keys.Pub) {
-		payload, _ := sd.Data.MarshalBinary()
-		if ok, _ := p.Keys.Pub.Verify(payload, sd.Signature); ok {
-			return blobInfo{genuine: true, isData: true, height: sd.Metadata.Height, hash: string(sd.Data.DACommitment())}
+	return out
+}
+
+// event is what the scan handed to sync.
+type event struct {
+	data   bool
+	height uint64
+	hash   string
+	txs    [][]byte
+}
+
+func (g genuineRef) matches(e event) bool {
+	if g.isData != e.data || g.height != e.height {
+		return false
+	}
+	if !g.isData {
+		return g.hash == e.hash
+	}
+	if len(g.txs) != len(e.txs) {
+		return false
+	}
+	for i := range g.txs {
+		if !bytes.Equal(g.txs[i], e.txs[i]) {
+			return false
 		}
 	}
-	return blobInfo{}
+	return true
+}
+
+// Limits of the driver. A stall is a violation only when it is logical: the scan took stallTicks ticks in a row
+// without asking the DA layer for anything (and stallQuiet passed, which only makes the verdict rarer). Running
+// out of caseBudget without that evidence is inconclusive.
+var (
+	stallTicks = 200
+	stallQuiet = 3 * time.Second
+	caseBudget = 90 * time.Second
+)
+
+func parseOutcome(o string) world.RetrieveOutcome {
+	variant := 0
+	if i := strings.IndexByte(o, ':'); i >= 0 {
+		fmt.Sscanf(o[i+1:], "%d", &variant)
+		o = o[:i]
+	}
+	switch {
+	case o == "notfound":
+		return world.RetrieveOutcome{Kind: []string{"notfound", "emptylist", "nilresult"}[variant%3]}
+	case strings.HasPrefix(o, "chunkerr"):
+		return world.RetrieveOutcome{Kind: "chunkerr", Chunk: int(o[len(o)-1] - '0'), ErrVariant: variant}
+	}
+	return world.RetrieveOutcome{Kind: o, ErrVariant: variant}
 }
 
 func runCase(r *vk.Run, p *world.Produced, c Case) {
@@ -164,6 +215,7 @@ func runCase(r *vk.Run, p *world.Produced, c Case) {
 	rng := rand.New(rand.NewSource(c.Seed))
 	da := world.NewDADouble()
 	da.AutoAdvance = false
+	sp := &spy{DADouble: da}
 	// layout
 	last := c.Start + uint64(c.Heights)
 	first := c.Start
@@ -171,290 +223,321 @@ func runCase(r *vk.Run, p *world.Produced, c Case) {
 		first = 1
 	}
 	junk := junkCorpus(rng, p, 40+rng.Intn(60))
-	type placed struct {
-		h    uint64
-		blob []byte
-		info blobInfo
-	}
-	var all []placed
-	var genuine [][]byte
-	for i := range p.Heights {
-		genuine = append(genuine, p.HeaderBlob[i])
-		if p.DataBlob[i] != nil {
-			genuine = append(genuine, p.DataBlob[i])
-		}
+	genuine := genuineBlobs(p)
+	isGenuine := map[string]bool{}
+	for _, g := range genuine {
+		isGenuine[string(g.blob)] = true
 	}
 	rng.Shuffle(len(genuine), func(a, b int) { genuine[a], genuine[b] = genuine[b], genuine[a] })
+	// some heights stay empty, some hold junk only
+	kindOf := map[uint64]string{} // "" = mixed, "empty", "junk"
+	var usable []uint64
+	for h := first; h <= last; h++ {
+		switch x := rng.Intn(8); {
+		case h == c.BigAt:
+		case x < 2:
+			kindOf[h] = "empty"
+		case x == 2:
+			kindOf[h] = "junk"
+		}
+		if kindOf[h] == "" {
+			usable = append(usable, h)
+		}
+	}
+	if len(usable) == 0 {
+		delete(kindOf, last)
+		usable = append(usable, last)
+	}
 	perH := map[uint64][][]byte{}
-	for _, g := range genuine {
-		h := first + uint64(rng.Intn(int(last-first+1)))
-		perH[h] = append(perH[h], g)
+	spread := genuine
+	var tail []genuineRef
+	if c.BigAt != 0 && c.BigN > 0 {
+		room := c.BigN - ((c.BigN-1)/100)*100
+		k := min(len(genuine), room, 1+rng.Intn(len(genuine)))
+		tail, spread = genuine[:k], genuine[k:]
+	}
+	for _, g := range spread {
+		h := usable[rng.Intn(len(usable))]
+		perH[h] = append(perH[h], g.blob)
 		if rng.Intn(5) == 0 { // the same genuine blob again at another height
-			h2 := first + uint64(rng.Intn(int(last-first+1)))
-			perH[h2] = append(perH[h2], g)
+			h2 := usable[rng.Intn(len(usable))]
+			perH[h2] = append(perH[h2], g.blob)
 		}
 	}
 	for _, j := range junk {
 		h := first + uint64(rng.Intn(int(last-first+1)))
+		if kindOf[h] == "empty" {
+			continue
+		}
 		perH[h] = append(perH[h], j)
 	}
-	if c.BigAt != 0 {
+	if c.BigAt != 0 && c.BigN == 0 {
 		// up to 250 ids at one height: three chunks
 		for len(perH[c.BigAt]) < 230+rng.Intn(21) {
 			if rng.Intn(4) == 0 {
-				perH[c.BigAt] = append(perH[c.BigAt], genuine[rng.Intn(len(genuine))])
+				perH[c.BigAt] = append(perH[c.BigAt], genuine[rng.Intn(len(genuine))].blob)
 			} else {
 				perH[c.BigAt] = append(perH[c.BigAt], junk[rng.Intn(len(junk))])
 			}
 		}
 	}
+	nBlobs, nJunk := 0, 0
+	placedAt := map[string][]uint64{} // genuine blob -> DA heights
 	for h := first; h <= last; h++ {
 		blobs := perH[h]
 		rng.Shuffle(len(blobs), func(a, b int) { blobs[a], blobs[b] = blobs[b], blobs[a] })
+		if h == c.BigAt && c.BigN > 0 {
+			// exactly BigN ids: junk, then the genuine blobs at the very end (last chunk only)
+			var js [][]byte
+			for _, b := range blobs {
+				if !isGenuine[string(b)] {
+					js = append(js, b)
+				}
+			}
+			for len(js) < c.BigN-len(tail) {
+				js = append(js, junk[rng.Intn(len(junk))])
+			}
+			blobs = append([][]byte{}, js[:c.BigN-len(tail)]...)
+			for _, g := range tail {
+				blobs = append(blobs, g.blob)
+			}
+		}
 		ng := 0
 		for _, b := range blobs {
-			info := classify(p, b)
-			if info.genuine {
+			if isGenuine[string(b)] {
 				ng++
+				placedAt[string(b)] = append(placedAt[string(b)], h)
+			} else {
+				nJunk++
 			}
-			all = append(all, placed{h, b, info})
 		}
+		nBlobs += len(blobs)
 		c.Layout = append(c.Layout, fmt.Sprintf("%d:%d blobs (%d genuine)", h, len(blobs), ng))
 		if len(blobs) > 0 {
 			da.Place(h, blobs...)
+		} else {
+			as := c.EmptyAs
+			if as == "mixed" {
+				as = []string{"", "emptylist", "nilresult"}[rng.Intn(3)]
+			}
+			if as != "" {
+				da.SetEmptyAs(h, as)
+			}
 		}
+	}
+	if c.Start == 0 && (c.EmptyAs == "emptylist" || c.EmptyAs == "nilresult") {
+		da.SetEmptyAs(0, c.EmptyAs)
 	}
 	da.SetHeight(last)
 	for h, seq := range c.Outcomes {
 		for _, o := range seq {
-			// "<kind>[:<error identity>]"
-			variant := 0
-			if i := strings.IndexByte(o, ':'); i >= 0 {
-				fmt.Sscanf(o[i+1:], "%d", &variant)
-				o = o[:i]
-			}
-			ro := world.RetrieveOutcome{Kind: o, ErrVariant: variant}
-			if strings.HasPrefix(o, "chunkerr") {
-				ro = world.RetrieveOutcome{Kind: "chunkerr", Chunk: int(o[len(o)-1] - '0'), ErrVariant: variant}
-			}
-			da.ScriptRetrieve(h, ro)
+			da.ScriptRetrieve(h, parseOutcome(o))
 		}
 	}
 	r.Journal(c)
-	n, err := world.NewNode(ctx, world.NodeOpts{Aggregator: false, DABlockTime: time.Hour, BlockTime: time.Hour, DAStartHeight: c.Start},
-		p.Keys, world.NewMemDS(world.NewImage()), world.NewExecDouble(), world.NewSeqDouble(), da, nil)
+	// DABlockTime is short: the harness ticks the scan itself, but a scan that paces itself by the DA block time
+	// must not be made to wait
+	n, err := world.NewNode(ctx, world.NodeOpts{Aggregator: false, DABlockTime: 20 * time.Millisecond, BlockTime: time.Hour, DAStartHeight: c.Start},
+		p.Keys, world.NewMemDS(world.NewImage()), world.NewExecDouble(), world.NewSeqDouble(), sp, nil)
 	if err != nil {
 		r.Violation("startup", err.Error(), c)
 		return
 	}
+	sp.setCursor(n.M.VerifDAHeight)
 	l := world.StartLoops(ctx, n, "retrieve")
 	defer l.Stop()
 	// collect events (the sync loop is not running: the harness is the consumer)
-	type ev struct {
-		data   bool
-		height uint64
-		hash   string
-		da     uint64
-	}
-	var events []ev
+	var events []event
 	drain := func() {
 		for {
 			select {
 			case e := <-n.M.VerifHeaderInCh():
-				events = append(events, ev{false, e.Header.Height(), string(e.Header.Hash()), e.DAHeight})
-			case e := <-n.M.VerifDataInCh():
-				var hgt uint64
-				if e.Data.Metadata != nil {
-					hgt = e.Data.Metadata.Height
+				if e.Header != nil {
+					events = append(events, event{data: false, height: e.Header.Height(), hash: string(e.Header.Hash())})
 				}
-				events = append(events, ev{true, hgt, string(e.Data.DACommitment()), e.DAHeight})
+			case e := <-n.M.VerifDataInCh():
+				if e.Data == nil {
+					continue
+				}
+				ev := event{data: true}
+				if e.Data.Metadata != nil {
+					ev.height = e.Data.Metadata.Height
+				}
+				for _, tx := range e.Data.Txs {
+					ev.txs = append(ev.txs, tx)
+				}
+				events = append(events, ev)
 			default:
 				return
 			}
 		}
 	}
-	old := world.Watchdog
-	_ = old
-	// scan until the loop was told "from the future" for the first height beyond the DA head
-	done := make(chan error, 1)
-	go func() { done <- l.RetrieveUntilIdle(da, last+1) }()
-	stall := false
-	timeout := time.After(90 * time.Second)
-wait:
+	// tick the scan until it was told "from the future" for the first height beyond the DA head
+	began := time.Now()
+	outcome := "idle"
+	lastCalls, lastCallAt, ticksSince := -1, time.Now(), 0
 	for {
-		select {
-		case err := <-done:
-			if err != nil {
-				stall = true
-			}
-			break wait
-		case <-time.After(2 * time.Millisecond):
-			drain()
-		case <-timeout:
-			stall = true
-			break wait
-		}
-	}
-	drain()
-	wit := func() any {
-		var calls []string
-		for _, dc := range da.Calls() {
-			calls = append(calls, fmt.Sprintf("%s h=%d %s n=%d", dc.Kind, dc.Height, dc.Outcome, dc.NIDs))
-		}
-		if len(calls) > 80 {
-			calls = calls[:80]
-		}
-		return map[string]any{"case": c, "da_calls": calls}
-	}
-	if stall {
-		r.Violation("no-stall", fmt.Sprintf("the scan did not reach the DA head (height %d) within 90 s although every DA call returned at once; cursor is at %d", last, n.M.VerifDAHeight()), wit())
-		return
-	}
-	if l.Exited("retrieve") {
-		r.Violation("no-stall", "the DA scan loop terminated", wit())
-		return
-	}
-	// ---- oracle over the call log
-	var viol []string
-	calls := da.Calls()
-	type exam struct {
-		h       uint64
-		outcome string // success | notfound | future | listerr | chunkerr
-	}
-	var exams []exam
-	for i := 0; i < len(calls); i++ {
-		if calls[i].Kind != "getids" {
-			continue
-		}
-		e := exam{h: calls[i].Height, outcome: calls[i].Outcome}
-		if e.outcome == "ok" {
-			e.outcome = "success"
-			for j := i + 1; j < len(calls) && calls[j].Kind == "get"; j++ {
-				if calls[j].Outcome != "ok" {
-					e.outcome = "chunkerr"
-				}
-			}
-		}
-		exams = append(exams, e)
-	}
-	if len(exams) == 0 {
-		viol = append(viol, "the scan never asked the DA layer for anything")
-	} else {
-		r.Hit("starts-at-configured-height")
-		if exams[0].h != c.Start {
-			viol = append(viol, fmt.Sprintf("scan started at DA height %d, configured start is %d", exams[0].h, c.Start))
-		}
-	}
-	success := map[uint64]bool{}
-	for i, e := range exams {
-		if e.outcome == "success" {
-			success[e.h] = true
-		}
-		if i == 0 {
-			continue
-		}
-		prev := exams[i-1]
-		r.Hit("advance-rule")
-		switch prev.outcome {
-		case "success", "notfound":
-			if e.h != prev.h+1 {
-				viol = append(viol, fmt.Sprintf("after DA height %d was examined (%s) the next height asked for is %d, not %d", prev.h, prev.outcome, e.h, prev.h+1))
-			}
-		default:
-			r.Hit("retry-same-height")
-			if e.h != prev.h {
-				viol = append(viol, fmt.Sprintf("DA height %d answered %q but the scan moved to %d instead of retrying it", prev.h, prev.outcome, e.h))
-			}
-		}
-		if len(viol) > 3 {
+		drain()
+		if l.Exited("retrieve") {
+			outcome = "exited"
 			break
 		}
+		if da.FutureAnswers(last+1) > 0 {
+			break
+		}
+		if nc := sp.n(); nc != lastCalls {
+			lastCalls, lastCallAt, ticksSince = nc, time.Now(), 0
+		}
+		if n.M.VerifSignalLen("retrieve") == 0 && n.M.VerifSignal("retrieve") {
+			ticksSince++ // the previous tick was taken
+		}
+		if ticksSince > stallTicks && time.Since(lastCallAt) > stallQuiet {
+			outcome = "stall"
+			break
+		}
+		if time.Since(began) > caseBudget {
+			outcome = "budget"
+			break
+		}
+		time.Sleep(200 * time.Microsecond)
 	}
-	// ---- events: every genuine blob at a successfully examined height is handed to sync, nothing else is
-	// A blob is required to be emitted when it is byte-identical to a genuine blob. An altered copy that still
-	// carries the proposer's valid signature over the same content (e.g. a bit flipped in an unsigned field) is
-	// the proposer's material as well: the scan may emit it or not, either way is conforming.
-	exact := map[string]bool{}
+	// a scan that works ahead may have asked for last+1 before it handed over what it found at last: let it
+	// finish three more passes
+	if outcome == "idle" {
+		for k := 0; k < 3; k++ {
+			f0 := da.FutureAnswers(last + 1)
+			t0 := time.Now()
+			for da.FutureAnswers(last+1) == f0 && time.Since(t0) < 2*time.Second && !l.Exited("retrieve") {
+				if n.M.VerifSignalLen("retrieve") == 0 {
+					n.M.VerifSignal("retrieve")
+				}
+				drain()
+				time.Sleep(100 * time.Microsecond)
+			}
+			drain()
+		}
+	}
+	recs := sp.log()
+	wit := func() any {
+		var calls []string
+		for _, dc := range recs {
+			calls = append(calls, dc.String())
+		}
+		if len(calls) > 120 {
+			calls = append(append(calls[:60:60], "..."), calls[len(calls)-60:]...)
+		}
+		return map[string]any{"case": c, "da_calls": calls, "cursor_at_end": n.M.VerifDAHeight()}
+	}
+	v := judge(c.Start, last, recs, n.M.VerifDAHeight(), true, outcome == "idle")
+	r.HitN("advance-rule", int64(v.cursorChecks))
+	r.HitN("retry-same-height", int64(v.retries))
+	r.HitN("holds-none-by-listing", int64(v.noneByListing))
+	r.HitN("multi-chunk-height-fetched", int64(v.multiChunk))
+	if len(recs) > 0 {
+		r.Hit("starts-at-configured-height")
+	}
+	if len(v.findings) > 0 {
+		var parts []string
+		for _, f := range v.findings {
+			parts = append(parts, f.text)
+		}
+		r.Violation(v.findings[0].clause, strings.Join(parts, " ;; "), wit())
+	}
+	switch outcome {
+	case "exited":
+		r.Violation("no-stall", "the DA scan loop terminated", wit())
+		return
+	case "stall":
+		r.Violation("no-stall", fmt.Sprintf("the scan took %d ticks in a row (over %s) without asking the DA layer for anything and without having reached the DA head %d; cursor is at %d", ticksSince-1, time.Since(lastCallAt).Round(time.Millisecond), last, n.M.VerifDAHeight()), wit())
+		return
+	case "budget":
+		r.Inconclusive(fmt.Sprintf("C09 case %d: the scan did not reach the DA head %d within %s (cursor %d, %d DA calls); no logical stall was seen", c.ID, last, caseBudget, n.M.VerifDAHeight(), len(recs)))
+		r.FlushHits()
+		return
+	}
+	// ---- events: every genuine blob at a completely fetched height was handed to sync
+	type wanted struct {
+		g  genuineRef
+		at []uint64
+	}
+	var want []wanted
 	for _, g := range genuine {
-		exact[string(g)] = true
-	}
-	want := map[string]int{}
-	allowed := map[string]bool{}
-	for _, pl := range all {
-		if pl.info.genuine && success[pl.h] {
-			k := fmt.Sprintf("%v/%d/%x/%d", pl.info.isData, pl.info.height, pl.info.hash, pl.h)
-			allowed[k] = true
-			if exact[string(pl.blob)] {
-				want[k]++
+		var at []uint64
+		for _, h := range placedAt[string(g.blob)] {
+			if v.fetchedOK[h] {
+				at = append(at, h)
 			}
 		}
+		if len(at) > 0 {
+			want = append(want, wanted{g, at})
+		}
 	}
-	got := map[string]int{}
+	missing := func() []wanted {
+		var out []wanted
+		for _, w := range want {
+			found := false
+			for _, e := range events {
+				if w.g.matches(e) {
+					found = true
+					break
+				}
+			}
+			if !found {
+				out = append(out, w)
+			}
+		}
+		return out
+	}
+	miss := missing()
+	for t0 := time.Now(); len(miss) > 0 && time.Since(t0) < 2*time.Second; miss = missing() {
+		time.Sleep(5 * time.Millisecond)
+		drain()
+	}
+	r.HitN("genuine-blob-delivered", int64(len(want)))
+	if c.BigN > 0 && v.fetchedOK[c.BigAt] {
+		r.HitN("genuine-in-last-chunk-delivered", int64(len(tail)))
+	}
+	if len(miss) > 0 {
+		var parts []string
+		for i, w := range miss {
+			if i == 4 {
+				parts = append(parts, fmt.Sprintf("... %d more", len(miss)-4))
+				break
+			}
+			parts = append(parts, fmt.Sprintf("the genuine %s, fetched with DA height(s) %v, was not handed to sync", w.g.name(), w.at))
+		}
+		r.Violation("genuine-blob-delivered", strings.Join(parts, " ;; "), wit())
+	}
+	// what else was handed over is not judged here (sync re-validates: C03); it is counted
+	other := 0
 	for _, e := range events {
-		got[fmt.Sprintf("%v/%d/%x/%d", e.data, e.height, e.hash, e.da)]++
-	}
-	if DEBUG {
-		for k, v := range want {
-			fmt.Printf("want %s x%d got %d\n", k[:12]+k[len(k)-4:], v, got[k])
-		}
-		for k, v := range got {
-			fmt.Printf("got %s x%d want %d\n", k[:12]+k[len(k)-4:], v, want[k])
-		}
-	}
-	for k := range want {
-		r.Hit("genuine-blob-delivered")
-		if got[k] == 0 {
-			viol = append(viol, fmt.Sprintf("genuine blob (data=%v/block/hash/da = %s) at a successfully examined DA height was not handed to sync", strings.HasPrefix(k, "true"), k[:min(len(k), 40)]))
-			if len(viol) > 5 {
+		m := false
+		for _, g := range genuine {
+			if g.matches(e) {
+				m = true
 				break
 			}
 		}
-	}
-	for k := range got {
-		r.Hit("only-genuine-delivered")
-		if !allowed[k] {
-			viol = append(viol, fmt.Sprintf("an event was handed to sync that is no genuine blob at that DA height: %s", k[:min(len(k), 40)]))
-			if len(viol) > 8 {
-				break
-			}
+		if !m {
+			other++
 		}
 	}
-	if len(viol) > 0 {
-		r.Violation(clauseOf(viol[0]), strings.Join(viol, " ;; "), wit())
-	}
-	nErr, nJunk := 0, 0
+	nErr := 0
 	for _, seq := range c.Outcomes {
 		nErr += len(seq)
 	}
-	for _, pl := range all {
-		if !pl.info.genuine {
-			nJunk++
-		}
-	}
-	r.Count("da_examinations", int64(len(exams)))
-	r.Count("blobs_scanned", int64(len(all)))
+	r.Count("da_calls", int64(len(recs)))
+	r.Count("failed_answers_while_incomplete", int64(v.failures))
+	r.Count("blobs_scanned", int64(nBlobs))
 	r.Count("junk_blobs", int64(nJunk))
 	r.Count("events_emitted", int64(len(events)))
-	r.Eval(c.key(), nJunk > 0 && nErr > 0, map[string]any{"start": c.Start, "outcomes": c.Outcomes, "layout": c.Layout})
+	r.Count("events_not_matching_a_genuine_blob", int64(other))
+	r.Eval(c.key(), nJunk > 0 && nErr > 0, map[string]any{"start": c.Start, "outcomes": c.Outcomes, "layout": c.Layout, "empty_as": c.EmptyAs, "big": fmt.Sprintf("%d/%d", c.BigAt, c.BigN)})
 	r.FlushHits()
 }
 
-// DEBUG prints the event comparison (tests only).
-var DEBUG bool
-
-func clauseOf(s string) string {
-	switch {
-	case strings.Contains(s, "retrying"):
-		return "retry-same-height"
-	case strings.Contains(s, "next height asked"):
-		return "advance-rule"
-	case strings.Contains(s, "was not handed"):
-		return "genuine-blob-delivered"
-	case strings.Contains(s, "no genuine blob"):
-		return "only-genuine-delivered"
-	}
-	return "scan"
-}
+// BigNs are the id counts of the dedicated multi-chunk cases: around the chunk size of the fetch.
+var BigNs = []int{100, 101, 199, 200, 201, 250}
 
 func buildCases(r *vk.Run) []Case {
 	rng := r.Rand("cases")
@@ -488,26 +571,35 @@ func buildCases(r *vk.Run) []Case {
 		}
 		all = append(all, long)
 	}
+	// every failing outcome gets one of the error identities a DA client can surface (generic, deadline
+	// exceeded plain / wrapped, the DA interface's sentinels, an RPC transport error; for a chunk fetch also
+	// "not found" / "from the future": a listed id that cannot be fetched yet); "nothing here" is said in one
+	// of three ways (ErrBlobNotFound, empty id list, nil result)
+	withIdentity := func(seq []string) []string {
+		out := make([]string, len(seq))
+		for k, o := range seq {
+			switch {
+			case o == "listerr":
+				o = fmt.Sprintf("%s:%d", o, rng.Intn(world.RetrieveErrVariants))
+			case strings.HasPrefix(o, "chunkerr"):
+				o = fmt.Sprintf("%s:%d", o, rng.Intn(world.RetrieveErrVariantsAll))
+			case o == "notfound":
+				o = fmt.Sprintf("%s:%d", o, rng.Intn(3))
+			}
+			out[k] = o
+		}
+		return out
+	}
+	emptyModes := []string{"", "emptylist", "nilresult", "mixed"}
 	for i, s := range all {
 		c := Case{ID: i, Start: starts[i%3], Heights: 4 + rng.Intn(5), Outcomes: map[uint64][]string{}, Seed: rng.Int63()}
+		c.EmptyAs = emptyModes[rng.Intn(len(emptyModes))]
 		first := c.Start
 		if first == 0 {
 			first = 1
 		}
 		// the enumerated sequence goes to one height; a second height gets another short one
 		h1 := first + uint64(rng.Intn(c.Heights))
-		// every failing outcome gets one of the error identities a DA client can surface (generic, deadline
-		// exceeded plain / wrapped, the DA interface's sentinels, an RPC transport error)
-		withIdentity := func(seq []string) []string {
-			out := make([]string, len(seq))
-			for k, o := range seq {
-				if o == "listerr" || strings.HasPrefix(o, "chunkerr") {
-					o = fmt.Sprintf("%s:%d", o, rng.Intn(world.RetrieveErrVariants))
-				}
-				out[k] = o
-			}
-			return out
-		}
 		s = withIdentity(s)
 		c.Outcomes[h1] = s
 		if i%4 == 0 {
@@ -524,6 +616,30 @@ func buildCases(r *vk.Run) []Case {
 		}
 		cases = append(cases, c)
 	}
+	// multi-chunk completeness: exactly 100, 101, 199, 200, 201, 250 ids, genuine blobs in the last chunk only;
+	// fault-free, with a failure of the last chunk (also with a not-found / from-the-future identity), with a
+	// listing error
+	lastChunk := func(n int) int { return (n - 1) / 100 }
+	for k := 0; k < r.N(1, 4); k++ {
+		for _, bn := range BigNs {
+			scripts := [][]string{
+				nil,
+				{fmt.Sprintf("chunkerr%d:%d", lastChunk(bn), rng.Intn(world.RetrieveErrVariantsAll))},
+				{fmt.Sprintf("chunkerr%d:%d", lastChunk(bn), world.RetrieveErrVariants+rng.Intn(world.RetrieveErrVariantsAll-world.RetrieveErrVariants))},
+				{fmt.Sprintf("listerr:%d", rng.Intn(world.RetrieveErrVariants)), fmt.Sprintf("chunkerr%d:%d", rng.Intn(lastChunk(bn)+1), rng.Intn(world.RetrieveErrVariantsAll))},
+			}
+			for _, sc := range scripts {
+				c := Case{ID: len(cases), Start: starts[len(cases)%3], Heights: 3 + rng.Intn(4), Outcomes: map[uint64][]string{}, Seed: rng.Int63(), BigN: bn}
+				c.EmptyAs = emptyModes[rng.Intn(len(emptyModes))]
+				first := max(c.Start, 1)
+				c.BigAt = first + uint64(rng.Intn(c.Heights))
+				if sc != nil {
+					c.Outcomes[c.BigAt] = sc
+				}
+				cases = append(cases, c)
+			}
+		}
+	}
 	return cases
 }
 
@@ -539,7 +655,7 @@ func chains(ctx context.Context) ([]*world.Produced, error) {
 				spec.Blocks = append(spec.Blocks, [][]byte{[]byte(fmt.Sprintf("c09-%d-%d", ci, b)), bytes.Repeat([]byte{byte(b)}, 1+50*b)})
 			}
 		}
-		p, err := world.ProduceChain(ctx, spec, keys)
+		p, err := produce(ctx, spec, keys)
 		if err != nil {
 			return nil, err
 		}
@@ -557,7 +673,8 @@ func child(args []string) int {
 	r := vk.NewChildRun("C09", args[2], Level, os.Stdout)
 	ps, err := chains(context.Background())
 	if err != nil {
-		r.Violation("producer", err.Error(), nil)
+		// no genuine material, nothing to scan: says nothing about the scan
+		r.Inconclusive("C09: the genuine chains could not be produced: " + err.Error())
 		return 0
 	}
 	// cases are a function of (seed, tier) only: every child builds the same list and takes its share
@@ -591,19 +708,28 @@ func child(args []string) int {
 func Run(r *vk.Run) {
 	world.Silence()
 	maxLen := r.N(3, 4)
-	r.Rule = fmt.Sprintf("every sequence of fetch outcomes of length <= %d over {not found, from the future, listing error, error on chunk 0/1/2} scripted for a DA height before its real contents are served, for start heights {0,1,17}; DA heights hold the genuine header and signed-data blobs of real chains (shuffled, several per height, repeated at other heights) mixed with junk (truncations at every length class, bit flips, absurd varint lengths, wrong message types, empty, random, concatenations), one height with 230-250 ids (three fetch chunks); the real RetrieveLoop runs in child processes, the harness is the consumer of its events. Oracle on the DA call log: start height, advance only after success / nothing-here, retry the same height otherwise; every genuine blob at a successfully examined height is emitted, nothing else is. non-trivial = junk present and at least one non-success outcome; distinct by (start, outcomes, layout)", maxLen)
-	r.Assume("the 100 ms retry pause of the scan is real time; a scan that does not reach the DA head within 90 s although every DA call returns at once is judged stalled")
+	r.Rule = fmt.Sprintf("every sequence of fetch outcomes of length <= %d over {nothing here (ErrBlobNotFound | empty id list | nil result), from the future, listing error, error on chunk 0/1/2} scripted for a DA height before its real contents are served, plus runs of 10-13 failures, for start heights {0,1,17}; failures carry one of 7 (listing) / 11 (chunk fetch, incl. not-found and from-the-future identities) error identities; DA heights hold the genuine header and signed-data blobs of real chains (shuffled, several per height, repeated at other heights) mixed with junk (truncations at every length class, bit flips, absurd varint lengths, wrong message types, empty, random, concatenations, structured protobuf junk), some heights junk-only, some empty (answering ErrBlobNotFound, an empty id list or a nil result), one height with 230-250 ids, and heights with exactly %v ids whose genuine blobs sit in the last fetch chunk only; the real RetrieveLoop runs in child processes, the harness is the consumer of its events. Oracle on the DA call log and the scan cursor read at every DA call: a height is complete once a listing said it holds nothing or every listed id came back from a successful fetch; the cursor never stands above an incomplete height; a height that failed while incomplete is asked for again before a higher one is completed; at idle every height from the start to the DA head is complete; every blob byte-identical to a genuine one (the producer's own record, no decoder) at a completely fetched height is handed to sync. non-trivial = junk present and at least one scripted non-success outcome; distinct by (start, outcomes, layout)", maxLen, BigNs)
+	r.Assume("a stall is judged only logically: more than 200 consecutive ticks taken by the scan without any DA call (and 3 s without one); a case that does not reach the DA head within 90 s without that evidence is inconclusive")
 	cases := buildCases(r)
 	// (not marked exhaustive: the fault dimension is enumerated completely, the contents are sampled)
 	shards := 14
 	results := r.RunShards("c09", shards, shards, 40*time.Minute)
 	for _, res := range results {
-		if res.ExitErr != nil {
-			r.Violation("no-crash", fmt.Sprintf("the process running the DA scan died (%v) while working on a case", res.ExitErr),
-				map[string]any{"last_case_started": res.LastCase, "output_tail": res.Tail})
+		if res.ExitErr == nil {
+			continue
 		}
+		// a child that was killed from outside (run-time limit, out of memory) says nothing about the scan
+		if strings.Contains(res.ExitErr.Error(), "signal: killed") || strings.Contains(res.ExitErr.Error(), "signal: terminated") {
+			r.Inconclusive(fmt.Sprintf("a child process running DA scan cases was killed from outside (%v)", res.ExitErr))
+			continue
+		}
+		r.Violation("no-crash", fmt.Sprintf("the process running the DA scan died (%v) while working on a case", res.ExitErr),
+			map[string]any{"last_case_started": res.LastCase, "output_tail": res.Tail})
 	}
 	r.Require("advance-rule", int64(len(cases)))
 	r.Require("retry-same-height", int64(len(cases)/2))
 	r.Require("genuine-blob-delivered", int64(len(cases)))
+	r.Require("holds-none-by-listing", int64(len(cases)/8))
+	r.Require("multi-chunk-height-fetched", int64(len(BigNs)))
+	r.Require("genuine-in-last-chunk-delivered", int64(len(BigNs)))
 }
